@@ -34,7 +34,7 @@ def main():
         if suite:
             r = subprocess.run([os.path.join(VERIF, 'tools', 'suite.sh'), d], capture_output=True, text=True)
             print('suite:', r.stdout.strip().replace('\n', ' | '))
-        env = dict(os.environ, WCMATCH_REPO=d)
+        env = dict(os.environ, WCMATCH_REPO=d, VERIF_EVIDENCE_DIR=os.path.join(d, '_evidence'), VERIF_REPLAY_DIR=os.path.join(VERIF, 'replays'))
         rc = 0
         for cid in args:
             r = subprocess.run([os.path.join(VERIF, 'check'), cid, '--tier', tier], capture_output=True, text=True, env=env, cwd=VERIF)
@@ -51,8 +51,6 @@ def main():
         return rc
     finally:
         shutil.rmtree(d, ignore_errors=True)
-        # replays written for the mutant are not evidence of the real tree
-        subprocess.run('git -C %s checkout -- evidence 2>/dev/null' % VERIF, shell=True)
 
 
 if __name__ == '__main__':
